@@ -40,7 +40,7 @@ def combined(prog, rec, tier, rules, **kw):
         rec.instances = {k: v for k, v in rec.instances.items() if any(k.startswith(r) for r in rules)}
 
 
-def _combined(prog, rec, tier, rules, driver=(), hmac=(), pipe=False, monitor=False, spawn=False, explanation='', hash=(), modes=(), aes=()):
+def _combined(prog, rec, tier, rules, driver=(), hmac=(), pipe=False, monitor=False, spawn=False, explanation='', hash=(), modes=(), aes=(), compress=False):
     from . import monitor as mon
     info = {}
     rec.extra['explanation'] = explanation
@@ -81,6 +81,9 @@ def _combined(prog, rec, tier, rules, driver=(), hmac=(), pipe=False, monitor=Fa
         hs = HashRules(prog, rec)
         for part in hash:
             getattr(hs, part)()
+    if compress:
+        from . import term_rules
+        term_rules.hash_compress(prog, rec, tier)
     rec.obls = [o for o in rec.obls if o.rule in rules]
     rec.instances = {k: v for k, v in rec.instances.items() if any(k.startswith(r) for r in rules)}
     rec.extra['explanation'] = explanation
